@@ -66,6 +66,9 @@ def run_variant(v: dict) -> dict:
         shutil.rmtree(root, ignore_errors=True)
 
 
+LAST: dict = {}
+
+
 def main(jobs: int = 16, only: str | None = None) -> int:
     t0 = time.time()
     vs = load_variants()
@@ -81,6 +84,8 @@ def main(jobs: int = 16, only: str | None = None) -> int:
     bad = [r for r in res if not r["ok"]]
     nb = sum(1 for v in vs if v["kind"] == "break")
     print(f"[selftest{' ' + only if only else ''}] variants={len(vs)} (break={nb}, neutral={len(vs) - nb}) failed={len(bad)} wall={time.time() - t0:.1f}s")
+    LAST.clear()
+    LAST.update({"variants": len(vs), "break": nb, "neutral": len(vs) - nb, "failed": len(bad), "ids": [v["id"] for v in vs], "wall_s": round(time.time() - t0, 2)})
     for r in bad:
         print(f"SELFTEST-FAIL {r['id']}: {r['why']}")
         if r.get("out"):
